@@ -689,3 +689,32 @@ Definition bits32 (ns : list node) : bool :=
   forallb (fun n => forallb (fun e => e_bits e <? 4294967296) (entries n)) ns.
 (* trigger of finding 0: a picked shard was abandoned *)
 Definition has_drop (its : list item) : bool := existsb is_drop its.
+
+(* ---------- per key (volume, shard) versions of the two triggers ---------- *)
+(* finding 1, per key: shard s of volume v is on more than one node in the snapshot *)
+Definition dup_key (ns : list node) (v s : N) : bool := (1 <? total ns v s)%nat.
+(* finding 0, per key: the run abandoned a picked shard s of volume v *)
+Definition drop_of (v s : N) (i : item) : bool :=
+  match i with IDrop v' s' _ _ => (v' =? v) && (s' =? s) | _ => false end.
+Definition drops_key (its : list item) (v s : N) : bool := existsb (drop_of v s) its.
+(* an abandoned pick that prints nothing (rack found, no node in it) *)
+Definition is_silent_drop (i : item) : bool := match i with IDrop _ _ _ None => true | _ => false end.
+(* "can not find a destination rack" lines for shard s of volume v in the printed plan *)
+Definition norack_of (v s : N) (e : event) : bool :=
+  match e with ENoRack v' s' _ => (v' =? v) && (s' =? s) | _ => false end.
+Definition printed_norack (evs : list event) (v s : N) : bool := existsb (norack_of v s) evs.
+
+(* ---------- commandEcBalance.Do: the gate after collectEcNodes ---------- *)
+(* totalFreeEcSlots = sum of the per-node free slots; Do returns an error when it is < 1 *)
+Definition total_free (ns : list node) : Z := fold_left (fun acc n => (acc + n_free n)%Z) ns 0%Z.
+Definition gate (ns : list node) : bool := (1 <=? total_free ns)%Z.
+(* None = refused ("no free ec shard slots"), nothing planned *)
+Definition ec_balance_do (ns : list node) (o : plan_orc) : option (option (state * list item)) :=
+  if gate ns then Some (run_plan false (init_state ns) o) else None.
+
+(* snapshot-decidable: every volume already respects the spread limit on every rack
+   (then balanceEcShardsAcrossRacks picks nothing, so nothing can be abandoned) *)
+Definition rack_balanced (ns : list node) : bool :=
+  let rk := collect_racks ns in
+  let avg := ceil_div total_shards (Z.of_nat (length rk)) in
+  forallb (fun v => forallb (fun r => (rack_vid_count ns r v <=? avg)%Z) (map fst rk)) (all_vids ns).
